@@ -27,7 +27,9 @@ ASSUMPTIONS = ["pycparser parse trees are represented faithfully by tools/pyc_du
                "equality of analysis results is observed on the real tool (metamorphic runs); the relation algebra is modelled elsewhere",
                "the clear list is a list of closures over object identities; the model applies them in one pass over original positions (commuting effects)"]
 LEVEL_TEXT = ("Machine-checked theorems about the executable Coq model of Coverage / ast_mod over all generic trees, model tied to the code by "
-              "generated tables + differential correspondence; result invariance under insertion observed metamorphically on the real tool.")
+              "generated tables + differential correspondence; loop mode: which loops are inspected and in which state, in strict and in default mode "
+              "(C07_loop_mode_*: strict inspects exactly the fully supported non-empty loops, untouched; default mode inspects each loop on its own cleaned "
+              "tree); result invariance under insertion (block positions and brace-less positions) observed metamorphically on the real tool.")
 LEVEL_NOTE = "Trusted: Coq kernel, translators, pyc_dump, harness. No axioms."
 TECHNIQUE = "Coq proof over a generic AST + metamorphic search + model/code correspondence"
 
